@@ -958,3 +958,119 @@ def c17(tier):
     rep.sample("history ['ctr big k10 many chunks keep temp', 'ctr small k10 (cli)', 'cov small k7 (cli)'] into one directory (stale temp files of a larger grid)")
     rep.note("C17: breadth-first search over canonical on-disk states (sorted (name, content hash); unordered outputs hashed as sorted line multisets) with the real subcommands as transitions, from the empty location and from a location pre-filled with longer garbage under every documented name; 4 output kinds (oligo file, cgr file, minimiser listings, counter/coverage directory incl. library runs with tiny ceilings that leave temp files of larger grids behind)")
     return rep.done()
+
+
+# ------------------------------------------------------------------------------------------------ C03 / C04 observation points
+
+def _py_eval(code, timeout=300):
+    import sys
+    return run([sys.executable, "-c", code], timeout=timeout)
+
+
+def c03_cli(tier):
+    """header line of `kmertools comp oligo -H` and of the Python binding = canonical k-mers in rank order"""
+    import json
+    rep = Rep()
+    d = fresh_dir("c03")
+    inp = os.path.join(d, "in.fa")
+    open(inp, "wb").write(b">a\nACGTTGCAAGCT\n>b\nNNACG\n")
+    jobs = [(k, preset, counts) for k in range(3, 8) for preset in ("csv", "tsv", "spc") for counts in (0, 1)]
+
+    def do(job):
+        k, preset, counts = job
+        out = os.path.join(fresh_dir("c03o"), "o.txt")
+        args = ["comp", "oligo", "-i", inp, "-o", out, "-k", str(k), "-p", preset, "-H"] + (["-c"] if counts else [])
+        rc, so, err, to = cli(args)
+        rep.ev(1, 1)
+        data = read(out)
+        names = [n.encode() for n in pm.header_names(k)]
+        a = {"k": k, "preset": preset, "counts": counts}
+        if rc != 0 or data is None:
+            rep.violation("run-failed", k, "kmertools %s: exit %s %r" % (" ".join(args), rc, err[-200:]), "c03_cli", a)
+            return
+        ls = lines_of(data)
+        if not ls or ls[0].split(PRESET_DELIM[preset]) != names:
+            rep.violation("header-line", k, "kmertools %s: header line %r... is not the canonical %d-mers in increasing order (%d columns expected)" % (" ".join(args), (ls[0][:60] if ls else b""), k, len(names)), "c03_cli", a)
+        elif len(ls) != 3 or any(len(r.split(PRESET_DELIM[preset])) != len(names) for r in ls[1:]):
+            rep.violation("column-count", k, "kmertools %s: rows do not have one value per header column" % " ".join(args), "c03_cli", a)
+
+    pmap(do, jobs)
+    code = "import sys,json; sys.path.insert(0,%r); import pykmertools as p; print(json.dumps({k: p.OligoComputer(k).get_header() for k in range(1,9)}))" % fe.PYMOD_DIR
+    rc, so, err, to = _py_eval(code)
+    if rc != 0:
+        rep.violation("python-header-failed", 0, "pykmertools get_header: exit %s %r" % (rc, err[-300:]), "c03_cli", {})
+    else:
+        got = json.loads(so)
+        for k in range(1, 9):
+            rep.ev(1, 1)
+            if got[str(k)] != pm.header_names(k):
+                rep.violation("python-header", k, "pykmertools.OligoComputer(%d).get_header() = %r..., expected the canonical k-mers in increasing order" % (k, got[str(k)][:8]), "c03_cli", {"k": k})
+    rep.sample("kmertools comp oligo -H -k 6 -p tsv: first line = 2080 canonical 6-mers AAAAAA..TTTAAA in increasing order; pykmertools.OligoComputer(2).get_header()")
+    return rep.done()
+
+
+def c04_cli(tier):
+    """CLI and Python oligo vectors on every string over {A,C,G,T,N} up to length 4 (thorough 5)"""
+    import json
+    rep = Rep()
+    maxlen = 5 if tier == "thorough" else 4
+    recs = [b""]
+    for n in range(1, maxlen + 1):
+        recs += [bytes(t) for t in itertools.product(b"ACGTN", repeat=n)]
+    recs = [r for r in recs if r]  # FASTA records with at least one base (empty records are covered in C16)
+    d = fresh_dir("c04")
+    inp = os.path.join(d, "in.fa")
+    open(inp, "wb").write(fasta_bytes(recs))
+    jobs = [(k, counts, t) for k in (3, 4, 5) for counts in (0, 1) for t in (1, 16)]
+
+    def do(job):
+        k, counts, t = job
+        out = os.path.join(fresh_dir("c04o"), "o.txt")
+        args = ["comp", "oligo", "-i", inp, "-o", out, "-k", str(k), "-t", str(t)] + (["-c"] if counts else [])
+        rc, so, err, to = cli(args, timeout=120)
+        rows = lines_of(read(out))
+        a = {"k": k, "counts": counts, "t": t}
+        rep.ev(1, 0)
+        if rc != 0 or rows is None or len(rows) != len(recs):
+            rep.violation("run-failed", k, "kmertools %s: exit %s, %s rows for %d records" % (" ".join(args), rc, None if rows is None else len(rows), len(recs)), "c04_cli", a)
+            return
+        for i, (row, r) in enumerate(zip(rows, recs)):
+            v, tt = pm.oligo(r, k)
+            toks = row.split(b" ")
+            rep.ev(1, 1 if tt else 0)
+            bad = len(toks) != len(v)
+            if not bad:
+                for c, tok in enumerate(toks):
+                    val = float(tok)
+                    if (val != v[c]) if counts else (not pm.close(val, v[c], tt)):
+                        bad = True
+                        break
+            if bad:
+                rep.violation("row-value", len(r), "kmertools %s: row %d (record %r) = %r..., model counts %r of %d windows" % (" ".join(args), i, r, row[:60], [x for x in v if x], tt), "c04_cli", a)
+                return
+
+    pmap(do, jobs)
+    # Python binding against the model (tolerance), all strings, k 1..=3
+    code = ("import sys,json,itertools; sys.path.insert(0,%r); import pykmertools as p\n"
+            "out={}\n"
+            "for k in (1,2,3):\n"
+            "  oc=p.OligoComputer(k)\n"
+            "  for n in range(0,%d):\n"
+            "    for t in itertools.product('ACGTN',repeat=n):\n"
+            "      s=''.join(t); out['%%d %%s'%%(k,s)]=[oc.vectorise_one(s,True),oc.vectorise_one(s,False)]\n"
+            "print(json.dumps(out))\n") % (fe.PYMOD_DIR, maxlen + 1)
+    rc, so, err, to = _py_eval(code)
+    if rc != 0:
+        rep.violation("python-failed", 0, "pykmertools vectorise_one sweep: exit %s %r" % (rc, err[-300:]), "c04_cli", {})
+    else:
+        got = json.loads(so)
+        for key, (vn, vr) in got.items():
+            k, _, s = key.partition(" ")
+            k = int(k)
+            v, tt = pm.oligo(s.encode(), k)
+            rep.ev(1, 1 if tt else 0)
+            if len(vn) != len(v) or vr != [float(x) for x in v] or any(not pm.close(a, c, tt) for a, c in zip(vn, v)):
+                rep.violation("python-row-value", len(s), "pykmertools.OligoComputer(%d).vectorise_one(%r) = %r / %r, model counts %r of %d" % (k, s, vn[:8], vr[:8], v[:8], tt), "c04_cli", {"k": k, "s": s})
+                break
+    rep.sample("kmertools comp oligo -k 4 -c on all %d strings over ACGTN up to length %d as one FASTA; pykmertools vectorise_one on the same strings" % (len(recs), maxlen))
+    return rep.done()
